@@ -1090,6 +1090,30 @@ cache_harness! {
 
 cache_harness! {
     [kani::unwind(7)]
+    fn c08_remove_full_buffer() {
+        // remove of a resident key while the insert buffer is full: remove reports the error, but
+        // the value it already took out of the store is still handed to on_exit exactly once
+        let mut cfg = any_cfg();
+        cfg.insert_buf = 1;
+        let (p, a, _b, _ents) = any_parked_n(TransparentKeyBuilder::<u64>::default(), 0, cfg, Some(true), 1);
+        let k = nd::any_u64();
+        let before = raw(&p.store, k);
+        vassert!(p.enqueue(Item::Update { key: nd::any_u64(), cost: 1, external_cost: 0 }), "first item fits");
+        let r = p.cache.try_remove(&k);
+        vassert!(r.is_err(), "remove on a full buffer reports the error instead of blocking");
+        vassert!(raw(&p.store, k).is_none(), "the key is gone from the store");
+        match before {
+            Some(e) => vassert!(p.cb.exits(e.val) == 1 && p.cb.all() == 1, "a value taken out of the store is handed to on_exit exactly once, also when queuing the Delete fails"),
+            None => vassert!(p.cb.all() == 0, "removing an absent key triggers no callback"),
+        }
+        vcover!(before.is_some(), "resident removed on a full buffer");
+        let _ = a;
+        std::mem::forget(p);
+    }
+}
+
+cache_harness! {
+    [kani::unwind(7)]
     fn c10_wait_full_buffer() {
         // a full insert buffer: wait() returns an error instead of blocking
         let mut cfg = any_cfg();
@@ -1265,7 +1289,9 @@ fn new_wiring() {
     use crate::store::verif_harness::storerec as sr;
     let mut cfg = any_cfg();
     cfg.metrics = true;
-    let (mut p, _a, _b, _ents) = any_parked_n(TransparentKeyBuilder::<u64>::default(), 0, cfg, Some(true), 0);
+    // one possibly resident (and charged) entry: a New item can also arrive for a key that is
+    // already resident (stale duplicate, vetoed or colliding insert)
+    let (mut p, _a, _b, _ents) = any_parked_n(TransparentKeyBuilder::<u64>::default(), 0, cfg, Some(true), 1);
     unsafe {
         ps::CONTRACT_WIRING = true;
         ps::ADD_CALLS = 0;
@@ -1276,10 +1302,14 @@ fn new_wiring() {
     let cost = nd::any_i64_in(0, COST_MAX);
     let d = any_duration(4);
     let isz = if cfg.ignore_internal_cost { 0 } else { p.item_size() };
+    unsafe {
+        ps::ADD_KEY_RESIDENT = p.policy.contains(&k);
+    }
     let item = Item::New { key: k, conflict, cost, value: 2, expiration: time_at(clock::get(), d) };
     let r = p.proc_.handle_insert_event(Ok(item));
     vassert!(r.is_ok(), "handling a New item does not fail");
     unsafe {
+        vcover!(ps::ADD_KEY_RESIDENT, "[new] New item for an already charged key");
         vassert!(ps::ADD_CALLS == 1 && ps::ADD_KEY == k, "the policy is asked exactly once, for the item's key");
         vassert!(ps::ADD_COST == cost + isz, "the charge handed to the policy is the given cost plus the internal overhead unless ignored");
         let added = ps::ADD_OUT_ADDED;
